@@ -8,7 +8,8 @@ block, one RelationMemberListBuilder block.  `strsOf` lists every string that re
 
 Every string the decoder passes on is an entry of the block's string table (`m_stringtable.at(i)`,
 bounds-checked: std::out_of_range → error) or the empty default; the table rejects entries longer
-than `max_osm_string_length` — but NOT entries containing NUL bytes (DESIGN.md F13a).
+than `max_osm_string_length` and — since repair da64936 — entries containing NUL bytes (DESIGN.md
+F13a).  `Pre` is the decoder as it was before that repair, kept for the regression witness.
 
 Core-only.
 -/
@@ -49,7 +50,17 @@ def toObjS (fixed : Bytes) : Object → ObjS
       subs := tagsSub tags ++
         (if cs.isEmpty then [] else [.discussion (cs.map fun c => ⟨c.date, c.uid, c.user, some c.text⟩)]) }
 
-/-- no string of the object contains a NUL byte — what the PBF decoder does NOT establish -/
+/-- no string of the object contains a NUL byte — what `decode_stringtable` establishes since
+    repair da64936 (`decodeFile_strings_nulfree`) and did not establish before -/
 def NulFree (o : Object) : Prop := ∀ s ∈ strsOf o, noNul s = true
+
+/-- `decode_stringtable` as it was BEFORE repair da64936: length check only.  Kept as regression
+    documentation (Props/C03Pbf.lean `f13a_prefix_*`); the current function is
+    `Pbf.decodeStringTable`. -/
+def Pre.decodeStringTable (cur : List Bytes) (payload : Bytes) : Option (List Bytes) :=
+  if !cur.isEmpty then none
+  else Pbf.withFields payload fun fs =>
+    let ss := (fs.filter fun f => f.tag == 1 && f.wt == .lengthDelimited).map (·.payload)
+    if ss.any (fun s => s.length > Pbf.maxOsmStringLength) then none else some ss
 
 end Osmium.HostilePbf
